@@ -42,6 +42,33 @@ def run(F, rep):
         return
     mk = F.consts.get("ragc_core::segment::MISSING_KMER", {}).get("int")
     rep.ob("C10-S2", "the missing-k-mer constant is u64::MAX", mk == MISSING, detail=str(mk), how="trivial", key="C10-S2 | MISSING_KMER")
+    # ------------------------------------------------------------ S9: a segmentation is a function of this call's arguments
+    # The scanning window, the counters and the output are locals of the call.  State that outlives the call - a thread_local
+    # key, a static with interior mutability - makes the segments of one contig depend on which contig the same thread cut
+    # before (the window of the previous contig carried into this one breaks the k-base overlap and the recorded k-mers).
+    import callgraph as cgmod9
+    G9 = cgmod9.CallGraph(F)
+    bodies9 = set()
+    for f in segs:
+        bodies9 |= {k for k in G9.reachable([f.key]) if k in F.funcs and F.funcs[k].crate == "ragc_core" and
+                    re.search(r"^ragc_core::(segment|kmer)::", k)}
+        bodies9 |= {c.key for c in F.closures_of(f.key)}
+    n9 = 0
+    for k9 in sorted(bodies9):
+        f9 = F.funcs[k9]
+        n9 += 1
+        uses = []
+        for bi, t in f9.calls():
+            if not t.get("indirect") and re.search(r"thread::local::LocalKey::<[^>]*(<[^>]*>)?>::\w+$", t["callee"]):
+                uses.append("thread_local key via %s" % t["callee"].rsplit("::", 1)[-1])
+        for b in f9.blocks:
+            js = repr(b["stmts"]) + repr(b["term"])
+            for st, info in F.statics.items():
+                if st in js and (info.get("mut") or re.search(r"Atomic|Mutex|RwLock|Cell|OnceLock", info.get("ty", ""))):
+                    uses.append("static %s" % st.rsplit("::", 1)[-1])
+        rep.ob("C10-S9", "%s keeps nothing from one call to the next (no thread_local, no mutable static)" % k9.split("::", 1)[-1], not uses,
+               detail="; ".join(sorted(set(uses))), site="%s:%d" % (f9.file, f9.line_lo), key="C10-S9 | %s | no state across calls" % k9)
+    rep.floor("C10-S9", n9, 4, "bodies of the segmenters and of the k-mer window they drive")
     summaries = {}
     for f in segs:
         name = f.key.rsplit("::", 1)[-1]
